@@ -53,6 +53,28 @@ func (g *Gen) size() DataSpec {
 			if r.Chance(1, 6) {
 				return DataSpec{Gen: true, Len: 200*1024 + r.Intn(5), Seed: r.U64()}
 			}
+		case 4:
+			// sparse payloads: whole blocks of zeros at the block sizes copy loops and sparse-file
+			// logic use (512, 4 KiB, the 32 KiB io.Copy buffer, 64 KiB), incl. all-zero tails
+			blk := pick(r, []int{512, 4096, 32768, 32768, 65536})
+			nb := 1 + r.Intn(4)
+			if blk == 65536 && nb > 3 {
+				nb = 3
+			}
+			tail := pick(r, []int{0, 0, 0, 1, blk / 2})
+			var mask uint64
+			switch r.Intn(5) {
+			case 0, 1:
+				mask = 1 << uint(nb-1) // the last full block is a hole
+			case 2:
+				mask = ^uint64(0) // all zero
+			case 3:
+				mask = r.U64()
+			default:
+				mask = 1
+			}
+			g.count(fmt.Sprintf("data:holes blk=%d", blk))
+			return DataSpec{Holes: true, Len: blk*nb + tail, Seed: r.U64(), Blk: blk, Mask: mask}
 		}
 	}
 	n := pick(r, smallSizes)
@@ -219,6 +241,19 @@ func (g *Gen) rejectedDI() (DI, string) {
 	case "reader":
 		n := len(di.Data.Bytes())
 		di.Fail = r.Intn(n + 1)
+	}
+	if (k == "name129" || k == "reader") && r.Chance(1, 3) {
+		// the rejected input is a primary system partition: whatever the add staged before the
+		// failure (architecture, counters) must not survive it
+		var keep []DIOpt
+		for _, o := range di.Opts {
+			if o.Kind == "name" || o.Kind == "align" || o.Kind == "group" || o.Kind == "nogroup" {
+				keep = append(keep, o)
+			}
+		}
+		di.DT = 0x4004
+		di.Opts = append([]DIOpt{{Kind: "part", I: int64(1 + r.Intn(5)), J: 2, S: pick(r, archNames)}}, keep...)
+		g.count("reject:" + k + "-primary")
 	}
 	g.count("reject:" + k)
 	return di, k
@@ -399,6 +434,9 @@ func (g *Gen) nextOp(f *sif.FileImage) *Op {
 			op.DI, _ = g.rejectedDI()
 		} else {
 			op.DI = g.validDI(!in.hasPrim)
+			if len(in.ids) > 0 && r.Chance(1, 10) {
+				op.DI.Src = pick(r, in.ids) // copy of an object of the same image, streamed from it
+			}
 		}
 		if in.free == 0 {
 			g.count("reject:full-table")
@@ -484,11 +522,26 @@ func (g *Gen) queryOp(in imgInfo) *Op {
 func (g *Gen) selector(in imgInfo) Sel {
 	r := g.r
 	idv := func(present []uint32) int64 {
-		switch r.Intn(6) {
+		switch r.Intn(7) {
 		case 0:
 			return 0
 		case 1:
 			return int64(50 + r.Intn(5))
+		case 2:
+			// values that carry the group-mask nibble or the largest representable number:
+			// absent as object/group IDs, but equal to the *raw* stored field of a group link
+			hi := []int64{0xffffffff, 0x0fffffff, 0xf0000000, 0x10000000}
+			for _, p := range in.linkGrps {
+				hi = append(hi, 0xf0000000|int64(p))
+			}
+			for _, p := range in.groups {
+				hi = append(hi, 0xf0000000|int64(p))
+			}
+			for _, p := range present {
+				hi = append(hi, 0xf0000000|int64(p))
+			}
+			g.count("q:mask-bits-value")
+			return pick(r, hi)
 		default:
 			if len(present) > 0 {
 				return int64(pick(r, present))
@@ -520,4 +573,63 @@ func (g *Gen) selector(in imgInfo) Sel {
 		}
 		return Sel{Kind: "oci", B: []byte(fmt.Sprintf("sha256:%x", r.Bytes(32)))}
 	}
+}
+
+// stSequence draws a raw call sequence on a bare backing store from the repertoire the library
+// issues (absolute seek >= 0, seek to end, non-empty write at any position incl. past the end,
+// truncation to at most the current length, positioned read of >= 1 byte anywhere).  The
+// generator tracks length and position itself (reference semantics) only to aim the calls.
+func (g *Gen) stSequence(be string) []*Op {
+	r := g.r
+	init := r.Bytes(pick(r, []int{0, 0, 1, 7, 64, 600, 5000}))
+	ops := []*Op{{Kind: "st", St: &StOp{Call: "new", Be: be, Data: DataSpec{Lit: init}}}}
+	ln, pos := int64(len(init)), int64(0)
+	near := func(x int64) int64 {
+		v := x + int64(r.Intn(9)) - 4
+		if v < 0 {
+			v = 0
+		}
+		return v
+	}
+	n := 6 + r.Intn(40)
+	for i := 0; i < n; i++ {
+		s := &StOp{}
+		switch x := r.Intn(100); {
+		case x < 22:
+			s.Call = "seek"
+			s.Off = pick(r, []int64{0, ln, near(ln), near(pos), near(ln / 2), ln + int64(r.Intn(5000)), int64(r.Intn(int(ln) + 1))})
+			pos = s.Off
+		case x < 30:
+			s.Call = "seekend"
+			pos = ln
+		case x < 62:
+			s.Call = "write"
+			k := 1 + r.Intn(40)
+			if r.Chance(1, 8) {
+				k = 1 + r.Intn(9000)
+			}
+			s.Data = DataSpec{Lit: r.Bytes(k)}
+			if r.Chance(1, 6) {
+				s.Data = DataSpec{Lit: make([]byte, k)} // zeros
+			}
+			pos += int64(k)
+			if pos > ln {
+				ln = pos
+			}
+		case x < 78:
+			s.Call = "trunc"
+			s.N = pick(r, []int64{0, ln, ln, near(ln), near(pos), ln / 2, int64(r.Intn(int(ln) + 1))})
+			if s.N > ln {
+				s.N = ln
+			}
+			ln = s.N
+		default:
+			s.Call = "read"
+			s.Off = pick(r, []int64{0, near(ln), near(pos), ln, ln + 3, int64(r.Intn(int(ln) + 1))})
+			s.N = int64(1 + r.Intn(pick(r, []int{4, 64, 5000})))
+		}
+		g.count("st:" + s.Call)
+		ops = append(ops, &Op{Kind: "st", St: s})
+	}
+	return ops
 }
